@@ -36,45 +36,52 @@ type dirInfo struct {
 	names map[string][]byte // name -> child handle
 }
 
+type dumpLoc struct {
+	dir  []byte
+	name string
+}
+
 type seqRun struct {
-	r            *Rng
-	d            *SparseDisk
-	srv          *nfs.Nfs
-	unstable     bool
-	objs         map[string]*objInfo // by handle hex: believed live
-	dirs         map[string]*dirInfo
-	stale        [][]byte
-	nameCtr      int
-	dead         bool // server panicked or hung
-	hist         map[string]int
-	opTimeout    time.Duration
-	cur          [][]byte        // handle-typed arguments of the operation being issued
-	chaseHot     bool            // concurrent runs: prefer the handle another client's finishing operation used
-	deadH        map[string]bool // handles of objects known to be removed or overwritten
-	issued       map[string]bool // every handle a creation ever returned
-	c09          bool            // compare full dumps around failing operations
-	lastDump     string
-	lastFree     [2]uint64
-	nOracle      int
-	sink         func(string) // where this run's lines go (default: stdout)
-	slotHook     func() int   // concurrent mode: the slot captured under the locks
-	pool         []string     // concurrent mode: shared pool of names
-	inline       bool         // concurrent mode: run calls in the calling goroutine
-	curDesc      string
-	locks        bool         // sequential mode: print the lock trace of every operation
-	imgOut       func(string) // where disk images for the structure checker go (nil: none)
-	fsckEvery    int          // image after every N counted operations
-	fsckDue      bool
-	opCount      int
-	imgCount     int
-	movedDirs    []uint64 // directories moved to another parent by RENAME (known finding: stale "..")
-	c10on        bool     // -c10: scenarios may ask for the coherence oracle at a point of their own
-	recovered    bool     // this server was started on a crash image: half-freed objects may exist
-	crossRenames int      // successful renames between two different directories
-	lastStatus   nfstypes.Nfsstat3
-	dumpFiles    [][]byte // handles of the regular files the last dumpTree saw
-	probeBlocks  int      // size of the file the post-crash probe writes
-	flushLocks   bool     // drop the events recorded so far when a request starts (uncounted helper requests ran before it)
+	r             *Rng
+	d             *SparseDisk
+	srv           *nfs.Nfs
+	unstable      bool
+	objs          map[string]*objInfo // by handle hex: believed live
+	dirs          map[string]*dirInfo
+	stale         [][]byte
+	nameCtr       int
+	dead          bool // server panicked or hung
+	hist          map[string]int
+	opTimeout     time.Duration
+	cur           [][]byte        // handle-typed arguments of the operation being issued
+	chaseHot      bool            // concurrent runs: prefer the handle another client's finishing operation used
+	deadH         map[string]bool // handles of objects known to be removed or overwritten
+	issued        map[string]bool // every handle a creation ever returned
+	c09           bool            // compare full dumps around failing operations
+	lastDump      string
+	lastFree      [2]uint64
+	nOracle       int
+	sink          func(string) // where this run's lines go (default: stdout)
+	slotHook      func() int   // concurrent mode: the slot captured under the locks
+	pool          []string     // concurrent mode: shared pool of names
+	inline        bool         // concurrent mode: run calls in the calling goroutine
+	curDesc       string
+	locks         bool         // sequential mode: print the lock trace of every operation
+	imgOut        func(string) // where disk images for the structure checker go (nil: none)
+	fsckEvery     int          // image after every N counted operations
+	fsckDue       bool
+	opCount       int
+	imgCount      int
+	movedDirs     []uint64 // directories moved to another parent by RENAME (known finding: stale "..")
+	c10on         bool     // -c10: scenarios may ask for the coherence oracle at a point of their own
+	recovered     bool     // this server was started on a crash image: half-freed objects may exist
+	crossRenames  int      // successful renames between two different directories
+	lastStatus    nfstypes.Nfsstat3
+	dumpFiles     [][]byte           // handles of the regular files the last dumpTree saw
+	dumpWhere     map[string]dumpLoc // ... and where each of them is named
+	removePending bool               // postCrashProbe: REMOVE the files whose truncation the crash interrupted instead of resuming it
+	probeBlocks   int                // size of the file the post-crash probe writes
+	flushLocks    bool               // drop the events recorded so far when a request starts (uncounted helper requests ran before it)
 }
 
 // fsckPoint dumps the logical disk for the structure checker: background freeing finished,
@@ -97,6 +104,8 @@ func (s *seqRun) emitf(format string, a ...interface{}) {
 		return
 	}
 	emit(format, a...)
+	// (a panic in a background goroutine of the server ends the process: what was issued so far must be on the output)
+	out.Flush()
 }
 
 func hx(b []byte) string {
@@ -152,6 +161,7 @@ func (s *seqRun) guarded(desc string, f func()) bool {
 	if s.dead {
 		return false
 	}
+	s.curDesc = desc
 	if s.fsckDue && !s.inline {
 		s.fsckPoint("periodic")
 	}
@@ -260,6 +270,9 @@ func (s *seqRun) count(op string, st nfstypes.Nfsstat3) {
 	}
 	s.hist[op+":"+cls]++
 	s.lastStatus = st
+	if s.c10on && !s.inline {
+		s.coherenceInodes(s.curDesc)
+	}
 	if st == nfstypes.NFS3ERR_NOSPC {
 		s.hist[op+":nospc"]++
 	}
@@ -1231,6 +1244,7 @@ func cmdSeq(fs *flag.FlagSet, args []string) {
 		emit("# sequence %d unstable=%v", i, unstable)
 		s.c09 = *c09
 		s.locks = *locks
+		s.c10on = *c10 > 0
 		s.imgOut, s.fsckEvery = imgOut, *fsckN
 		takeSeqEvents()
 		for j := 0; j < *nops && !s.dead; j++ {
